@@ -178,7 +178,7 @@ def run_correspondence(ck, consts):
     cases += load_jsonl(outp)
     # more small Loki JSON and Datadog log documents (two of three damaged by one edit) for the walk models
     outp2 = os.path.join(ck.work, "lokidoc.jsonl")
-    rc, out = ck.go_run("decode", ["--seed", ck.seed, "--n", ck.n(400, 8000), "--out", outp2], timeout=600, env_extra=dict(henv, C03_ONLY="lokidoc"))
+    rc, out = ck.go_run("decode", ["--seed", ck.seed, "--n", ck.n(300, 8000), "--out", outp2], timeout=600, env_extra=dict(henv, C03_ONLY="lokidoc"))
     if rc != 0:
         ck.obligation("harness decode (Loki JSON documents) ran", False, out[-1500:])
         return
@@ -401,7 +401,7 @@ def run_labels(ck):
                     c["id"] = 2000000 + i
                     c["coq"] = re.sub(r"^LCase \d+ ", "LCase %d " % c["id"], c["coq"])
                 cases += cs
-    n = ck.n(2400, 40000)
+    n = ck.n(2000, 40000)
     outp = os.path.join(ck.work, "labels.jsonl")
     rc, out = ck.go_run("decode", ["--seed", ck.seed, "--n", n, "--out", outp], timeout=600, env_extra=env)
     if rc != 0:
@@ -483,7 +483,7 @@ def run_time(ck):
                 c["coq"] = re.sub(r"^TCase \d+ ", "TCase %d " % c["id"], c["coq"])
                 c["class"] = tag + ":" + c["class"]
             cases += cs
-    n = ck.n(3000, 60000)
+    n = ck.n(2000, 60000)
     outp = os.path.join(ck.work, "time.jsonl")
     rc, out = ck.go_run("decode", ["--seed", ck.seed, "--n", n, "--out", outp], timeout=600, env_extra=env)
     if rc != 0:
